@@ -10,6 +10,7 @@ import ClaripyProofs.Lemmas.VSA.AndXor
 import ClaripyProofs.Lemmas.VSA.ConcatSound
 import ClaripyProofs.Lemmas.VSA.AshrSound
 import ClaripyProofs.Lemmas.VSA.MeetFinal
+import ClaripyProofs.Lemmas.VSA.MulTop
 /-!
 # C21 — strided-interval transfer functions are sound
 
@@ -317,8 +318,26 @@ theorem mul_unaligned_unsound : ¬ C21_mul_full := by
     (by decide) (by decide) (by decide) trivial (by decide) (by decide) (by decide)
   exact absurd this (by decide)
 
-/-- the statement that remains to be proved for `mul` (guard = both operands aligned) -/
-def C21_mul_aligned : Prop := SoundBin Conc.mul SI.mul bothAligned
+/-- aligned operands in the form the constructor returns -/
+def alignedNormal : SI → SI → Prop := fun a b => a.Aligned ∧ b.Aligned ∧ a.renorm = a ∧ b.renorm = b
+
+/-- **`mul` is sound on aligned operands** for every width: per pair of pieces of `_psplit` the unsigned and the signed
+partial product are aligned intervals that contain the product (`umul_piece`, `smul_piece`), so their meet does
+(`multiMeet_sound`); the partial results are joined (`lub_sup`) -/
+theorem C21_mul_aligned : SoundBin Conc.mul SI.mul alignedNormal := by
+  intro a b r x y ha hb hbits hg hx hy h
+  obtain ⟨hA, hB, nA, nB⟩ := hg
+  exact (mul_sound a.bits a b r ⟨ha, rfl⟩ ⟨hb, hbits.symm⟩ hx.1 hy.1 hA hB nA nB h).2 x y hx hy
+
+/-- closure of `mul` on such operands -/
+theorem C21_mul_closed (a b r : SI) (ha : a.WF) (hb : b.WF) (hbits : a.bits = b.bits) (hab : a.bottom = false)
+    (hbb : b.bottom = false) (hg : alignedNormal a b) (h : a.mul b = .ok r) : r.WF ∧ r.bits = a.bits :=
+  (mul_sound a.bits a b r ⟨ha, rfl⟩ ⟨hb, hbits.symm⟩ hab hbb hg.1 hg.2.1 hg.2.2.1 hg.2.2.2 h).1
+
+/-- non-vacuity: operands of both signs, one wrapping -/
+example : alignedNormal (SI.new 4 3 13 6) (SI.new 4 2 1 7) ∧ (SI.new 4 3 13 6).mem 3 ∧ (SI.new 4 2 1 7).mem 5 ∧
+    (∃ r, (SI.new 4 3 13 6).mul (SI.new 4 2 1 7) = .ok r ∧ r.mem (Conc.mul 4 3 5) ∧ r.mem (Conc.mul 4 13 7)) := by
+  refine ⟨by unfold alignedNormal; decide, by decide, by decide, ⟨_, rfl, by decide, by decide⟩⟩
 
 /-! ## bounded tests (not theorems) -/
 
